@@ -1,30 +1,43 @@
 /-
   C01 — Expressions evaluate exactly as the Soy language defines.
 
-  `eval_refines_spec_partial`: on the SCALAR OPERATOR FRAGMENT the interpreter model (Model/Eval.lean
-  `evalE`, which is tied to soyhtml/exec.go by the C01eval correspondence) refines the denotational
-  semantics of Appendix A (Spec/Eval.lean `eval`): wherever the specification gives a value the model
-  gives the same value (identities dropped, int64 read as an integer), and wherever the specification
-  gives an error the model gives an error.  Where the specification is open (`unspec`: int overflow,
-  division by zero, float print form outside the pinned window, undefined operands of `==`, …) nothing
-  is claimed.
+  `eval_refines_spec_partial` / `eval_refines_spec_ordering`: on the fragment below the interpreter model
+  (Model/Eval.lean `evalE`, which is tied to soyhtml/exec.go by the C01eval correspondence) refines the
+  denotational semantics of Appendix A (Spec/Eval.lean `eval`): wherever the specification gives a value the
+  model gives the same value (`absV`: identities of lists / maps dropped, int64 read as an integer, nested
+  values related member by member), and wherever the specification gives an error the model gives an error.
+  Where the specification is open (`unspec`: int overflow, division by zero, float print form outside the
+  pinned window, `==` with an undefined operand or on two collections — identity —, a negative list index,
+  an empty or non-string key on a map, printing a map with two or more entries, …) nothing is claimed.
 
-  The fragment (`frag`): null / boolean / integer (within int64) / float / string literals, globals,
-  plain variable references, `not`, unary minus, `and`, `or`, `?:`, the ternary, `==`, `!=`,
-  `+` (integer, float and string concatenation), `-`, `*`, `/`, `%`, nested arbitrarily — over
-  environments that bind scalars (undefined, null, booleans, ints, floats, strings).
+  The fragment (`frag` / `fragO true`), nested arbitrarily, over environments binding ANY values (scalars,
+  lists, maps, nested):
+    * null / boolean / integer (within int64) / float / string literals, globals;
+    * variable references WITH ACCESS CHAINS: `$x`, `.k`, `.N`, `[e]` and the null-safe `?.k`, `?[e]`, on maps
+      and lists — including the error cases (an access on null / undefined / a scalar, a key on a list, a
+      non-integer index) and the values (`undefined` for an absent key or an index past the end, `null`
+      for a null-safe LAST access on null / undefined);
+    * list literals and map literals (pairwise different keys) as VALUES;
+    * `not`, unary minus, `and`, `or`, `?:`, the ternary, `==`, `!=`, `+` (integer, float, string
+      concatenation — of any printable values, lists included), `-`, `*`, `/`, `%`; `< > <= >=` in
+      `eval_refines_spec_ordering` (`ordExact` is a theorem);
+    * the builtins isNonnull, length, strContains, hasData, range, min, max, keys (sorted, on both sides) and
+      augmentMap (`Lemmas/FuncRefine.lean`).
 
-  Missing for the full `eval_refines_spec` (kept out so that the theorem is true and proved):
-    * `< > <= >=` are covered by `eval_refines_spec_with_ordering` under the explicit hypothesis
-      `OrdExact` ("int → float is order-exact below 2^53" for the soft-float — now the THEOREM `ordExact`,
-      see `eval_refines_spec_ordering`; formerly only validated by the C20
-      correspondence, not proved); `eval_refines_spec_partial` needs no hypothesis and excludes them;
-    * collections: data-reference accesses, list / map literals, functions — and printing a map, where
-      the real code (and hence the model) DEVIATES from Appendix A (items sorted as `k: v` strings
-      instead of by key; an undefined member printed as "undefined"; `$l[-1]` an error) — see the
-      C01eval oracle's findings.  The refinement is false there, so no theorem can state it.
+  Still outside — why the theorems keep `_partial`:
+    * `$ij`, and names ending in a loop's bookkeeping suffix (`x.index`, `x.lastIndex` — no variable name
+      contains a '.', so this excludes nothing a parser produces);
+    * the loop functions index / isFirst / isLast: the specification gives `index($x)` as the integer `i`
+      whatever its size, the interpreter keeps it as an int64 — the two differ for a loop over more than
+      2^63 items, and the specification's clause is pinned by Props/C04c (`hspec`); it would need a guard
+      on the loop length there;
+    * round / floor / ceiling: they need exactness lemmas about the soft-float (decode ∘ round-to-nearest on
+      integers below 2^53, exact products by powers of ten) that are not proved; randomInt (a PRNG);
+    * a map literal that repeats a key.
+  These stay decided by the exhaustive C01eval matrix against Spec.eval.
 -/
 import SoyVerif.Lemmas.EvalRefine
+import SoyVerif.Lemmas.FuncRefine
 import SoyVerif.Lemmas.F64Order
 
 namespace SoyVerif.Props.C01
@@ -36,43 +49,63 @@ def opOk (ord : Bool) : BinOp → Bool
   | .lt | .le | .gt | .ge => ord
   | _ => true
 
-/-- is `k` the name of a loop helper (`x__index`, `x__lastIndex`)?  The interpreter keeps those in the loop's
+/-- is `k` the name of a loop helper (`x.index`, `x.lastIndex`)?  The interpreter keeps those in the loop's
     frame as ordinary bindings; the specification keeps them apart (they are reachable through `index` /
     `isFirst` / `isLast` only), so the fragment does not read variables of such names. -/
 def isHelper (k : Bytes) : Bool := sIndexSuffix.isSuffixOf k || sLastIndexSuffix.isSuffixOf k
 
-/-- the scalar operator fragment, with (`ord = true`) or without the four ordering comparisons.  `coll` names
-    the variables that may hold a collection (a list, a map): the fragment does not read those as scalars
-    (they are what a {foreach} ranges over / a {call} passes as data, Props/C02Spec.lean). -/
-def fragO (coll : Bytes → Bool) (ord : Bool) : Expr → Bool
+/-- the keys of a map literal -/
+def itemKeys : MapItems → List Bytes
+  | .nil => []
+  | .cons k _ r => k :: itemKeys r
+
+mutual
+/-- the expression fragment, with (`ord = true`) or without the four ordering comparisons -/
+def fragO (ord : Bool) : Expr → Bool
   | .null _ => true
   | .bool _ _ => true
   | .int _ v => decide (-2 ^ 63 ≤ v ∧ v < 2 ^ 63)
   | .float _ _ => true
   | .str _ _ _ => true
   | .global _ _ => true
-  | .dataRef _ key .nil => key != sIj && !isHelper key && !coll key
-  | .not _ a => fragO coll ord a
-  | .neg _ a => fragO coll ord a
-  | .bin op _ a b => opOk ord op && fragO coll ord a && fragO coll ord b
-  | .tern _ c a b => fragO coll ord c && fragO coll ord a && fragO coll ord b
-  | _ => false
+  | .dataRef _ key acc => key != sIj && !isHelper key && accFrag ord acc
+  | .not _ a => fragO ord a
+  | .neg _ a => fragO ord a
+  | .bin op _ a b => opOk ord op && fragO ord a && fragO ord b
+  | .tern _ c a b => fragO ord c && fragO ord a && fragO ord b
+  | .list _ items => listFragO ord items
+  | .map _ items => mapFragO ord items
+  | .func _ name args => fnOk name && listFragO ord args
+/-- access chains: `.k`, `.N`, `[e]` and the null-safe forms, the key expressions in the fragment -/
+def accFrag (ord : Bool) : AccessList → Bool
+  | .nil => true
+  | .cons (.key _ _ _) r => accFrag ord r
+  | .cons (.index _ _ _) r => accFrag ord r
+  | .cons (.expr _ _ e) r => fragO ord e && accFrag ord r
+/-- the items of a list literal (the arguments of a function) -/
+def listFragO (ord : Bool) : ExprList → Bool
+  | .nil => true
+  | .cons e r => fragO ord e && listFragO ord r
+/-- the items of a map literal: pairwise different keys -/
+def mapFragO (ord : Bool) : MapItems → Bool
+  | .nil => true
+  | .cons k e r => fragO ord e && !(itemKeys r).contains k && mapFragO ord r
+end
 
 /-- the fragment without `< > <= >=` (no hypothesis about the soft-float needed) -/
-def frag (coll : Bytes → Bool) (e : Expr) : Bool := fragO coll false e
+def frag (e : Expr) : Bool := fragO false e
 
 /-- the model's environment and the specification's bind the same values — scalars, except under the names
     `coll` -/
-structure EnvRel (coll : Bytes → Bool) (m : EEnv) (s : Spec.Eval.Env) : Prop where
+structure EnvRel (m : EEnv) (s : Spec.Eval.Env) : Prop where
   vars : ∀ k, isHelper k = false → absV (m.lookup k) = s.lookup k
-  scalar : ∀ k, coll k = false → Scalar (m.lookup k) = true
   globals : ∀ k, match Frame.find m.globals k with
-    | some v => Spec.Eval.find s.globals k = some (absV v) ∧ Scalar v = true
+    | some v => Spec.Eval.find s.globals k = some (absV v)
     | none => Spec.Eval.find s.globals k = none
 
 /-- on `e` the model agrees with the specification wherever the specification is defined -/
 def Sim (m : EEnv) (s : Spec.Eval.Env) (e : Expr) : Prop :=
-  ∀ n, (∀ v, Spec.Eval.eval s e = .val v → ∃ mv n', evalE m e n = .ok mv n' ∧ absV mv = v ∧ Scalar mv = true) ∧
+  ∀ n, (∀ v, Spec.Eval.eval s e = .val v → ∃ mv n', evalE m e n = .ok mv n' ∧ absV mv = v) ∧
        (Spec.Eval.eval s e = .error → evalE m e n = .err)
 
 theorem bind_val {α β : Type} {o : Out α} {f : α → Out β} {b : β} (h : o.bind f = .val b) :
@@ -83,14 +116,60 @@ theorem bind_err {α β : Type} {o : Out α} {f : α → Out β} (h : o.bind f =
     o = .error ∨ ∃ a, o = .val a ∧ f a = .error := by
   cases o <;> simp [Spec.Eval.Out.bind] at h ⊢; exact h
 
+/-- the keys of the value of a map literal are keys of the literal -/
+theorem evalMap_keys (s : Spec.Eval.Env) : ∀ (items : MapItems) (B : Spec.Eval.Binds), Spec.Eval.evalMap s items = .val B →
+    ∀ kv ∈ B, kv.1 ∈ itemKeys items
+  | .nil, B, h => by
+    rw [Spec.Eval.evalMap] at h; simp only [Out.val.injEq] at h; subst h; intro kv hkv; cases hkv
+  | .cons k e r, B, h => by
+    rw [Spec.Eval.evalMap] at h
+    obtain ⟨v, _, h⟩ := bind_val h
+    obtain ⟨Br, hr, h⟩ := bind_val h
+    simp only [Out.val.injEq] at h
+    subst h
+    intro kv hkv
+    rcases List.mem_cons.mp hkv with rfl | hkv
+    · simp [itemKeys]
+    · have := evalMap_keys s r Br hr kv (List.mem_filter.mp hkv).1
+      simp [itemKeys, this]
+
+theorem filter_ne_self (B : Spec.Eval.Binds) (k : Bytes) (h : ∀ kv ∈ B, kv.1 ≠ k) :
+    (B.filter fun kv => kv.1 != k) = B :=
+  List.filter_eq_self.mpr fun kv hkv => by simpa using h kv hkv
+
+/-- one access step, then the rest of the chain -/
+theorem step_cont {m : EEnv} {s : Spec.Eval.Env} (rest : AccessList) {ms : AStep} {ss : Spec.Eval.Step}
+    (hs : StepAgree ms ss) (n : Nat)
+    (ih : ∀ (ref : Value) (n : Nat),
+      (∀ v, Spec.Eval.evalAcc s rest (absV ref) = .val v → ∃ mv n', evalAccesses m rest ref n = .ok mv n' ∧ absV mv = v) ∧
+      (Spec.Eval.evalAcc s rest (absV ref) = .error → evalAccesses m rest ref n = .err)) :
+    (∀ v, (match ss with | .next v => Spec.Eval.evalAcc s rest v | .stop o => o) = .val v →
+      ∃ mv n', (match ms with | .cont v => evalAccesses m rest v n | .ret v => .ok v n | .err => .err) = .ok mv n' ∧ absV mv = v) ∧
+    ((match ss with | .next v => Spec.Eval.evalAcc s rest v | .stop o => o) = .error →
+      (match ms with | .cont v => evalAccesses m rest v n | .ret v => .ok v n | .err => .err) = .err) := by
+  cases ss with
+  | next v =>
+    obtain ⟨mv, rfl, rfl⟩ := hs
+    exact ih mv n
+  | stop o =>
+    cases o with
+    | val v =>
+      obtain ⟨mv, rfl, rfl⟩ := hs
+      exact ⟨fun v' h => by simp only [Out.val.injEq] at h; exact ⟨mv, n, rfl, h⟩, fun h => by simp at h⟩
+    | error =>
+      simp only [StepAgree] at hs
+      subst hs
+      exact ⟨fun v' h => by simp at h, fun _ => rfl⟩
+    | unspec => exact ⟨fun v' h => by simp at h, fun h => by simp at h⟩
+
 section
-variable {coll : Bytes → Bool} {m : EEnv} {s : Spec.Eval.Env} (hr : EnvRel coll m s)
+variable {m : EEnv} {s : Spec.Eval.Env} (hr : EnvRel m s)
 include hr
 
 /-- the strict operators (`+ - * / %`) given the two operands' simulations -/
 theorem strict_sim (op : BinOp) (p : Nat) (a b : Expr)
     (hop : op = .add ∨ op = .sub ∨ op = .mul ∨ op = .div ∨ op = .mod ∨ op = .lt ∨ op = .le ∨ op = .gt ∨ op = .ge)
-    (harith : ∀ x y, Scalar x = true → Scalar y = true → ArithSpec op x y)
+    (harith : ∀ x y, ArithSpec op x y)
     (ha : Sim m s a) (hb : Sim m s b) : Sim m s (.bin op p a b) := by
   intro n
   have hS : Spec.Eval.eval s (.bin op p a b) =
@@ -113,30 +192,31 @@ theorem strict_sim (op : BinOp) (p : Nat) (a b : Expr)
   refine ⟨fun v hv => ?_, fun herr => ?_⟩
   · obtain ⟨va, hva, hv⟩ := bind_val hv
     obtain ⟨vb, hvb, hv⟩ := bind_val hv
-    obtain ⟨ma, n1, hma, habs, hsa⟩ := (ha n).1 va hva
-    obtain ⟨mb, n2, hmb, hbbs, hsb⟩ := (hb n1).1 vb hvb
-    have := (harith ma mb hsa hsb).1 v (by rw [habs, hbbs]; exact hv)
+    obtain ⟨ma, n1, hma, habs⟩ := (ha n).1 va hva
+    obtain ⟨mb, n2, hmb, hbbs⟩ := (hb n1).1 vb hvb
+    have := (harith ma mb).1 v (by rw [habs, hbbs]; exact hv)
     obtain ⟨hna, hnb, mv, hmv, hmabs, hmsc⟩ := this
-    refine ⟨mv, n2, ?_, hmabs, hmsc⟩
+    refine ⟨mv, n2, ?_, hmabs⟩
     rw [hma]
     cases ma <;> simp_all
     all_goals (cases mb <;> simp_all)
   · rcases bind_err herr with h | ⟨va, hva, herr⟩
     · rw [(ha n).2 h]
-    · obtain ⟨ma, n1, hma, habs, hsa⟩ := (ha n).1 va hva
+    · obtain ⟨ma, n1, hma, habs⟩ := (ha n).1 va hva
       rw [hma]
       rcases bind_err herr with h | ⟨vb, hvb, herr⟩
       · have hb' := (hb n1).2 h
         cases ma <;> simp [hb']
-      · obtain ⟨mb, n2, hmb, hbbs, hsb⟩ := (hb n1).1 vb hvb
-        have := (harith ma mb hsa hsb).2 (by rw [habs, hbbs]; exact herr)
+      · obtain ⟨mb, n2, hmb, hbbs⟩ := (hb n1).1 vb hvb
+        have := (harith ma mb).2 (by rw [habs, hbbs]; exact herr)
         rcases this with h | h | h
         · subst h; simp
         · subst h; cases ma <;> simp [hmb]
         · cases ma <;> simp [hmb] <;> cases mb <;> simp_all
 
-/-- the model refines the specification on the scalar operator fragment -/
-theorem eval_refines_spec_ord (ord : Bool) (hord : ord = true → OrdExact) : (e : Expr) → fragO coll ord e = true → Sim m s e
+mutual
+/-- the model refines the specification on the fragment -/
+theorem eval_refines_spec_ord (ord : Bool) (hord : ord = true → OrdExact) : (e : Expr) → fragO ord e = true → Sim m s e
   | .null _, _ => by intro n; simp [Spec.Eval.eval, evalE, absV, Scalar]
   | .bool _ b, _ => by intro n; simp [Spec.Eval.eval, evalE, absV, Scalar]
   | .int _ v, hf => by
@@ -151,29 +231,30 @@ theorem eval_refines_spec_ord (ord : Bool) (hord : ord = true → OrdExact) : (e
     rw [Spec.Eval.eval, evalE]
     split at hg
     · rename_i v hv
-      rw [hv, hg.1]
-      simp [hg.2]
+      rw [hv, hg]
+      simp
     · rename_i hv
       rw [hv, hg]
       simp
-  | .dataRef _ key .nil, hf => by
+  | .dataRef _ key acc, hf => by
     intro n
     simp only [fragO, bne_iff_ne, ne_eq, Bool.and_eq_true, Bool.not_eq_true'] at hf
     have h1 : (key == sIj) = false := by simpa using hf.1.1
     have h2 : (key == Spec.Eval.sIj) = false := h1
     rw [Spec.Eval.eval, evalE]
-    simp only [h1, h2, Bool.false_eq_true, if_false, Spec.Eval.evalAcc, evalAccesses]
-    simp [hr.vars key hf.1.2, hr.scalar key hf.2]
+    simp only [h1, h2, Bool.false_eq_true, if_false]
+    rw [← hr.vars key hf.1.2]
+    exact acc_sim ord hord acc hf.2 (m.lookup key) n
   | .not _ a, hf => by
     intro n
     have ih := eval_refines_spec_ord ord hord a (by simpa [fragO] using hf) n
     rw [Spec.Eval.eval, evalE]
     refine ⟨fun v hv => ?_, fun herr => ?_⟩
     · obtain ⟨va, hva, hv⟩ := bind_val hv
-      obtain ⟨ma, n1, hma, habs, hsa⟩ := ih.1 va hva
+      obtain ⟨ma, n1, hma, habs⟩ := ih.1 va hva
       rw [hma]
       simp only [Out.val.injEq] at hv
-      exact ⟨_, _, rfl, by rw [← hv, ← habs, truthy_abs ma hsa]; rfl, rfl⟩
+      exact ⟨_, _, rfl, by rw [← hv, ← habs, truthy_abs ma]; rfl⟩
     · rcases bind_err herr with h | ⟨va, _, h⟩
       · rw [ih.2 h]
       · simp at h
@@ -183,7 +264,7 @@ theorem eval_refines_spec_ord (ord : Bool) (hord : ord = true → OrdExact) : (e
     rw [Spec.Eval.eval, evalE]
     refine ⟨fun v hv => ?_, fun herr => ?_⟩
     · obtain ⟨va, hva, hv⟩ := bind_val hv
-      obtain ⟨ma, n1, hma, habs, hsa⟩ := ih.1 va hva
+      obtain ⟨ma, n1, hma, habs⟩ := ih.1 va hva
       rw [hma]
       subst habs
       cases ma with
@@ -192,20 +273,20 @@ theorem eval_refines_spec_ord (ord : Bool) (hord : ord = true → OrdExact) : (e
         split at hv
         · rename_i hin
           simp only [Out.val.injEq] at hv
-          exact ⟨.int (-i), n1, rfl, by rw [← hv]; simp [absV, toInt_neg_of _ hin], rfl⟩
+          exact ⟨.int (-i), n1, rfl, by rw [← hv]; simp [absV, toInt_neg_of _ hin]⟩
         · simp at hv
       | float f =>
         simp only [absV, Out.val.injEq] at hv
-        exact ⟨.float (F64.neg f), n1, rfl, by rw [← hv]; simp [absV], rfl⟩
+        exact ⟨.float (F64.neg f), n1, rfl, by rw [← hv]; simp [absV]⟩
       | undefined => simp [absV] at hv
       | null => simp [absV] at hv
       | bool _ => simp [absV] at hv
       | str _ => simp [absV] at hv
-      | list _ _ => simp [Scalar] at hsa
-      | map _ _ => simp [Scalar] at hsa
+      | list _ _ => simp [absV] at hv
+      | map _ _ => simp [absV] at hv
     · rcases bind_err herr with h | ⟨va, hva, h⟩
       · rw [ih.2 h]
-      · obtain ⟨ma, n1, hma, habs, hsa⟩ := ih.1 va hva
+      · obtain ⟨ma, n1, hma, habs⟩ := ih.1 va hva
         rw [hma]
         subst habs
         cases ma with
@@ -213,8 +294,6 @@ theorem eval_refines_spec_ord (ord : Bool) (hord : ord = true → OrdExact) : (e
           simp only [absV, Spec.Eval.intRes] at h
           split at h <;> simp at h
         | float f => simp [absV] at h
-        | list _ _ => simp [Scalar] at hsa
-        | map _ _ => simp [Scalar] at hsa
         | _ => rfl
   | .tern _ c a b, hf => by
     intro n
@@ -223,19 +302,19 @@ theorem eval_refines_spec_ord (ord : Bool) (hord : ord = true → OrdExact) : (e
     rw [Spec.Eval.eval, evalE]
     refine ⟨fun v hv => ?_, fun herr => ?_⟩
     · obtain ⟨vc, hvc, hv⟩ := bind_val hv
-      obtain ⟨mc, n1, hmc, habs, hsc⟩ := ihc.1 vc hvc
+      obtain ⟨mc, n1, hmc, habs⟩ := ihc.1 vc hvc
       rw [hmc]
       simp only
-      rw [← habs, truthy_abs mc hsc] at hv
+      rw [← habs, truthy_abs mc] at hv
       split at hv
       · rename_i ht; simp only [ht, if_true]; exact (eval_refines_spec_ord ord hord a hf.1.2 n1).1 v hv
       · rename_i ht; simp only [ht, if_false]; exact (eval_refines_spec_ord ord hord b hf.2 n1).1 v hv
     · rcases bind_err herr with h | ⟨vc, hvc, h⟩
       · rw [ihc.2 h]
-      · obtain ⟨mc, n1, hmc, habs, hsc⟩ := ihc.1 vc hvc
+      · obtain ⟨mc, n1, hmc, habs⟩ := ihc.1 vc hvc
         rw [hmc]
         simp only
-        rw [← habs, truthy_abs mc hsc] at h
+        rw [← habs, truthy_abs mc] at h
         split at h
         · rename_i ht; simp only [ht, if_true]; exact (eval_refines_spec_ord ord hord a hf.1.2 n1).2 h
         · rename_i ht; simp only [ht, if_false]; exact (eval_refines_spec_ord ord hord b hf.2 n1).2 h
@@ -270,25 +349,25 @@ theorem eval_refines_spec_ord (ord : Bool) (hord : ord = true → OrdExact) : (e
       refine ⟨fun v hv => ?_, fun herr => ?_⟩
       · obtain ⟨va, hva, hv⟩ := bind_val hv
         obtain ⟨vb, hvb, hv⟩ := bind_val hv
-        obtain ⟨ma, n1, hma, habs, hsa⟩ := (iha n).1 va hva
-        obtain ⟨mb, n2, hmb, hbbs, hsb⟩ := (ihb n1).1 vb hvb
+        obtain ⟨ma, n1, hma, habs⟩ := (iha n).1 va hva
+        obtain ⟨mb, n2, hmb, hbbs⟩ := (ihb n1).1 vb hvb
         simp only [Spec.Eval.binop] at hv
         obtain ⟨r, hr', hv⟩ := bind_val hv
-        have he := (equals_refines ma mb hsa hsb).1 r (by rw [habs, hbbs]; exact hr')
+        have he := (equals_refines ma mb).1 r (by rw [habs, hbbs]; exact hr')
         simp only [Out.val.injEq] at hv
         rw [hma]
         simp only [hmb]
-        exact ⟨_, n2, rfl, by rw [he, ← hv]; simp [absV], rfl⟩
+        exact ⟨_, n2, rfl, by rw [he, ← hv]; simp [absV]⟩
       · rcases bind_err herr with h | ⟨va, hva, herr⟩
         · rw [(iha n).2 h]
-        · obtain ⟨ma, n1, hma, habs, hsa⟩ := (iha n).1 va hva
+        · obtain ⟨ma, n1, hma, habs⟩ := (iha n).1 va hva
           rw [hma]
           rcases bind_err herr with h | ⟨vb, hvb, herr⟩
           · simp only [(ihb n1).2 h]
-          · obtain ⟨mb, n2, hmb, hbbs, hsb⟩ := (ihb n1).1 vb hvb
+          · obtain ⟨mb, n2, hmb, hbbs⟩ := (ihb n1).1 vb hvb
             simp only [Spec.Eval.binop] at herr
             rcases bind_err herr with h | ⟨r, _, h⟩
-            · exact absurd (by rw [habs, hbbs]; exact h) (equals_refines ma mb hsa hsb).2
+            · exact absurd (by rw [habs, hbbs]; exact h) (equals_refines ma mb).2
             · simp at h
     | ne =>
       intro n
@@ -299,51 +378,51 @@ theorem eval_refines_spec_ord (ord : Bool) (hord : ord = true → OrdExact) : (e
       refine ⟨fun v hv => ?_, fun herr => ?_⟩
       · obtain ⟨va, hva, hv⟩ := bind_val hv
         obtain ⟨vb, hvb, hv⟩ := bind_val hv
-        obtain ⟨ma, n1, hma, habs, hsa⟩ := (iha n).1 va hva
-        obtain ⟨mb, n2, hmb, hbbs, hsb⟩ := (ihb n1).1 vb hvb
+        obtain ⟨ma, n1, hma, habs⟩ := (iha n).1 va hva
+        obtain ⟨mb, n2, hmb, hbbs⟩ := (ihb n1).1 vb hvb
         simp only [Spec.Eval.binop] at hv
         obtain ⟨r, hr', hv⟩ := bind_val hv
-        have he := (equals_refines ma mb hsa hsb).1 r (by rw [habs, hbbs]; exact hr')
+        have he := (equals_refines ma mb).1 r (by rw [habs, hbbs]; exact hr')
         simp only [Out.val.injEq] at hv
         rw [hma]
         simp only [hmb]
-        exact ⟨_, n2, rfl, by rw [he, ← hv]; simp [absV], rfl⟩
+        exact ⟨_, n2, rfl, by rw [he, ← hv]; simp [absV]⟩
       · rcases bind_err herr with h | ⟨va, hva, herr⟩
         · rw [(iha n).2 h]
-        · obtain ⟨ma, n1, hma, habs, hsa⟩ := (iha n).1 va hva
+        · obtain ⟨ma, n1, hma, habs⟩ := (iha n).1 va hva
           rw [hma]
           rcases bind_err herr with h | ⟨vb, hvb, herr⟩
           · simp only [(ihb n1).2 h]
-          · obtain ⟨mb, n2, hmb, hbbs, hsb⟩ := (ihb n1).1 vb hvb
+          · obtain ⟨mb, n2, hmb, hbbs⟩ := (ihb n1).1 vb hvb
             simp only [Spec.Eval.binop] at herr
             rcases bind_err herr with h | ⟨r, _, h⟩
-            · exact absurd (by rw [habs, hbbs]; exact h) (equals_refines ma mb hsa hsb).2
+            · exact absurd (by rw [habs, hbbs]; exact h) (equals_refines ma mb).2
             · simp at h
     | and =>
       intro n
       rw [Spec.Eval.eval, evalE]
       refine ⟨fun v hv => ?_, fun herr => ?_⟩
       · obtain ⟨va, hva, hv⟩ := bind_val hv
-        obtain ⟨ma, n1, hma, habs, hsa⟩ := (iha n).1 va hva
+        obtain ⟨ma, n1, hma, habs⟩ := (iha n).1 va hva
         rw [hma]
         simp only
-        rw [← habs, truthy_abs ma hsa] at hv
+        rw [← habs, truthy_abs ma] at hv
         cases ht : ma.truthy
         · simp only [ht, Bool.false_eq_true, if_false] at hv ⊢
           simp only [Out.val.injEq] at hv
-          exact ⟨_, n1, rfl, by rw [← hv]; simp [absV], rfl⟩
+          exact ⟨_, n1, rfl, by rw [← hv]; simp [absV]⟩
         · simp only [ht, if_true] at hv ⊢
           obtain ⟨vb, hvb, hv⟩ := bind_val hv
-          obtain ⟨mb, n2, hmb, hbbs, hsb⟩ := (ihb n1).1 vb hvb
+          obtain ⟨mb, n2, hmb, hbbs⟩ := (ihb n1).1 vb hvb
           simp only [Out.val.injEq] at hv
           rw [hmb]
-          exact ⟨_, n2, rfl, by rw [← hv, ← hbbs, truthy_abs mb hsb]; simp [absV], rfl⟩
+          exact ⟨_, n2, rfl, by rw [← hv, ← hbbs, truthy_abs mb]; simp [absV]⟩
       · rcases bind_err herr with h | ⟨va, hva, herr⟩
         · rw [(iha n).2 h]
-        · obtain ⟨ma, n1, hma, habs, hsa⟩ := (iha n).1 va hva
+        · obtain ⟨ma, n1, hma, habs⟩ := (iha n).1 va hva
           rw [hma]
           simp only
-          rw [← habs, truthy_abs ma hsa] at herr
+          rw [← habs, truthy_abs ma] at herr
           cases ht : ma.truthy
           · simp only [ht, Bool.false_eq_true, if_false] at herr ⊢
             simp at herr
@@ -356,26 +435,26 @@ theorem eval_refines_spec_ord (ord : Bool) (hord : ord = true → OrdExact) : (e
       rw [Spec.Eval.eval, evalE]
       refine ⟨fun v hv => ?_, fun herr => ?_⟩
       · obtain ⟨va, hva, hv⟩ := bind_val hv
-        obtain ⟨ma, n1, hma, habs, hsa⟩ := (iha n).1 va hva
+        obtain ⟨ma, n1, hma, habs⟩ := (iha n).1 va hva
         rw [hma]
         simp only
-        rw [← habs, truthy_abs ma hsa] at hv
+        rw [← habs, truthy_abs ma] at hv
         cases ht : ma.truthy
         · simp only [ht, Bool.false_eq_true, if_false] at hv ⊢
           obtain ⟨vb, hvb, hv⟩ := bind_val hv
-          obtain ⟨mb, n2, hmb, hbbs, hsb⟩ := (ihb n1).1 vb hvb
+          obtain ⟨mb, n2, hmb, hbbs⟩ := (ihb n1).1 vb hvb
           simp only [Out.val.injEq] at hv
           rw [hmb]
-          exact ⟨_, n2, rfl, by rw [← hv, ← hbbs, truthy_abs mb hsb]; simp [absV], rfl⟩
+          exact ⟨_, n2, rfl, by rw [← hv, ← hbbs, truthy_abs mb]; simp [absV]⟩
         · simp only [ht, if_true] at hv ⊢
           simp only [Out.val.injEq] at hv
-          exact ⟨_, n1, rfl, by rw [← hv]; simp [absV], rfl⟩
+          exact ⟨_, n1, rfl, by rw [← hv]; simp [absV]⟩
       · rcases bind_err herr with h | ⟨va, hva, herr⟩
         · rw [(iha n).2 h]
-        · obtain ⟨ma, n1, hma, habs, hsa⟩ := (iha n).1 va hva
+        · obtain ⟨ma, n1, hma, habs⟩ := (iha n).1 va hva
           rw [hma]
           simp only
-          rw [← habs, truthy_abs ma hsa] at herr
+          rw [← habs, truthy_abs ma] at herr
           cases ht : ma.truthy
           · simp only [ht, Bool.false_eq_true, if_false] at herr ⊢
             rcases bind_err herr with h | ⟨vb, _, h⟩
@@ -388,46 +467,214 @@ theorem eval_refines_spec_ord (ord : Bool) (hord : ord = true → OrdExact) : (e
       rw [Spec.Eval.eval, evalE]
       refine ⟨fun v hv => ?_, fun herr => ?_⟩
       · obtain ⟨va, hva, hv⟩ := bind_val hv
-        obtain ⟨ma, n1, hma, habs, hsa⟩ := (iha n).1 va hva
+        obtain ⟨ma, n1, hma, habs⟩ := (iha n).1 va hva
         rw [hma]
         subst habs
         cases ma with
         | undefined => simp only [absV] at hv; simpa [isNullish] using (ihb n1).1 v hv
         | null => simp only [absV] at hv; simpa [isNullish] using (ihb n1).1 v hv
-        | list _ _ => simp [Scalar] at hsa
-        | map _ _ => simp [Scalar] at hsa
-        | bool x => simp only [absV, Out.val.injEq] at hv; exact ⟨_, n1, rfl, by rw [← hv]; simp [absV], rfl⟩
-        | int x => simp only [absV, Out.val.injEq] at hv; exact ⟨_, n1, rfl, by rw [← hv]; simp [absV], rfl⟩
-        | float x => simp only [absV, Out.val.injEq] at hv; exact ⟨_, n1, rfl, by rw [← hv]; simp [absV], rfl⟩
-        | str x => simp only [absV, Out.val.injEq] at hv; exact ⟨_, n1, rfl, by rw [← hv]; simp [absV], rfl⟩
+        | list i xs => simp only [absV, Out.val.injEq] at hv; exact ⟨_, n1, rfl, by rw [← hv]; simp [absV]⟩
+        | map i kvs => simp only [absV, Out.val.injEq] at hv; exact ⟨_, n1, rfl, by rw [← hv]; simp [absV]⟩
+        | bool x => simp only [absV, Out.val.injEq] at hv; exact ⟨_, n1, rfl, by rw [← hv]; simp [absV]⟩
+        | int x => simp only [absV, Out.val.injEq] at hv; exact ⟨_, n1, rfl, by rw [← hv]; simp [absV]⟩
+        | float x => simp only [absV, Out.val.injEq] at hv; exact ⟨_, n1, rfl, by rw [← hv]; simp [absV]⟩
+        | str x => simp only [absV, Out.val.injEq] at hv; exact ⟨_, n1, rfl, by rw [← hv]; simp [absV]⟩
       · rcases bind_err herr with h | ⟨va, hva, herr⟩
         · rw [(iha n).2 h]
-        · obtain ⟨ma, n1, hma, habs, hsa⟩ := (iha n).1 va hva
+        · obtain ⟨ma, n1, hma, habs⟩ := (iha n).1 va hva
           rw [hma]
           subst habs
           cases ma with
           | undefined => simp only [absV] at herr; simpa [isNullish] using (ihb n1).2 herr
           | null => simp only [absV] at herr; simpa [isNullish] using (ihb n1).2 herr
-          | list _ _ => simp [Scalar] at hsa
-          | map _ _ => simp [Scalar] at hsa
+          | list _ _ => simp [absV] at herr
+          | map _ _ => simp [absV] at herr
           | bool x => simp [absV] at herr
           | int x => simp [absV] at herr
           | float x => simp [absV] at herr
           | str x => simp [absV] at herr
-  | .func .., hf => by simp [fragO] at hf
-  | .list .., hf => by simp [fragO] at hf
-  | .map .., hf => by simp [fragO] at hf
-  | .dataRef _ _ (.cons _ _), hf => by simp [fragO] at hf
+  | .func _ name args, hf => by
+    intro n
+    simp only [fragO, Bool.and_eq_true] at hf
+    obtain ⟨hlM, hlS⟩ := fnOk_notLoop name hf.1
+    have ih := args_sim ord hord args hf.2 n
+    rw [Spec.Eval.eval.eq_def, evalE.eq_def]
+    simp only [hlM, hlS, Bool.false_eq_true, if_false]
+    refine ⟨fun v hv => ?_, fun herr => ?_⟩
+    · obtain ⟨vs, hvs, hv⟩ := bind_val hv
+      obtain ⟨mvs, n', h1, h2⟩ := ih.1 vs hvs
+      rw [← h2] at hv
+      obtain ⟨har, mv, n'', hap, habs⟩ := (fn_agree name hf.1 mvs n').1 v hv
+      rw [evalArgs_len args n mvs n' h1] at har
+      simp only [arityOk] at har
+      cases hA : funcArities name with
+      | none => rw [hA] at har; simp at har
+      | some ar =>
+        rw [hA] at har
+        simp only at har ⊢
+        simp only [har, Bool.not_true, Bool.false_eq_true, if_false, h1]
+        exact ⟨mv, n'', hap, habs⟩
+    · cases hA : funcArities name with
+      | none => rfl
+      | some ar =>
+        simp only
+        by_cases hc : ar.contains args.length = true
+        · simp only [hc, Bool.not_true, Bool.false_eq_true, if_false]
+          rcases bind_err herr with h | ⟨vs, hvs, h⟩
+          · rw [ih.2 h]
+          · obtain ⟨mvs, n', h1, h2⟩ := ih.1 vs hvs
+            rw [← h2] at h
+            rw [h1]
+            rcases (fn_agree name hf.1 mvs n').2 h with hbad | hbad
+            · rw [evalArgs_len args n mvs n' h1] at hbad
+              have hc' : args.length ∈ ar := by simpa using hc
+              simp [arityOk, hA, hc'] at hbad
+            · exact hbad
+        · have hc' : ¬ args.length ∈ ar := by simpa using hc
+          simp [hc']
+  | .list _ items, hf => by
+    intro n
+    have ih := args_sim ord hord items (by simpa [fragO] using hf) n
+    rw [Spec.Eval.eval, evalE]
+    refine ⟨fun v hv => ?_, fun herr => ?_⟩
+    · obtain ⟨vs, hvs, hv⟩ := bind_val hv
+      obtain ⟨mvs, n', h1, h2⟩ := ih.1 vs hvs
+      simp only [Out.val.injEq] at hv
+      rw [h1]
+      exact ⟨_, _, rfl, by rw [← hv, ← h2]; rfl⟩
+    · rcases bind_err herr with h | ⟨vs, _, h⟩
+      · rw [ih.2 h]
+      · simp at h
+  | .map _ items, hf => by
+    intro n
+    have ih := map_sim ord hord items (by simpa [fragO] using hf) n
+    rw [Spec.Eval.eval, evalE]
+    refine ⟨fun v hv => ?_, fun herr => ?_⟩
+    · obtain ⟨B, hB, hv⟩ := bind_val hv
+      obtain ⟨kvs, n', h1, h2⟩ := ih.1 B hB
+      simp only [Out.val.injEq] at hv
+      rw [h1]
+      exact ⟨_, _, rfl, by rw [← hv, ← h2]; rfl⟩
+    · rcases bind_err herr with h | ⟨B, _, h⟩
+      · rw [ih.2 h]
+      · simp at h
+/-- an access chain on related bases -/
+theorem acc_sim (ord : Bool) (hord : ord = true → OrdExact) : (acc : AccessList) → accFrag ord acc = true →
+    ∀ (ref : Value) (n : Nat),
+      (∀ v, Spec.Eval.evalAcc s acc (absV ref) = .val v → ∃ mv n', evalAccesses m acc ref n = .ok mv n' ∧ absV mv = v) ∧
+      (Spec.Eval.evalAcc s acc (absV ref) = .error → evalAccesses m acc ref n = .err)
+  | .nil, _, ref, n => by
+    rw [Spec.Eval.evalAcc, evalAccesses]
+    exact ⟨fun v h => by simp only [Out.val.injEq] at h; exact ⟨ref, n, rfl, h⟩, fun h => by simp at h⟩
+  | .cons (.key _ ns k) rest, hf, ref, n => by
+    simp only [accFrag] at hf
+    rw [Spec.Eval.evalAcc.eq_def, evalAccesses]
+    simp only
+    exact step_cont rest (access_str ref ns k _) n (acc_sim ord hord rest hf)
+  | .cons (.index _ ns i) rest, hf, ref, n => by
+    simp only [accFrag] at hf
+    rw [Spec.Eval.evalAcc.eq_def, evalAccesses]
+    simp only
+    exact step_cont rest (access_int ref ns i _) n (acc_sim ord hord rest hf)
+  | .cons (.expr _ ns e) rest, hf, ref, n => by
+    simp only [accFrag, Bool.and_eq_true] at hf
+    have ihe := eval_refines_spec_ord ord hord e hf.1 n
+    have ihr := acc_sim ord hord rest hf.2
+    rw [Spec.Eval.evalAcc.eq_def, evalAccesses]
+    simp only
+    refine ⟨fun v hv => ?_, fun herr => ?_⟩
+    · obtain ⟨kv, hkv, hv⟩ := bind_val hv
+      obtain ⟨mk, n1, hmk, habs⟩ := ihe.1 kv hkv
+      rw [hmk]
+      subst habs
+      cases mk with
+      | int i => exact (step_cont rest (access_int ref ns i.toInt _) n1 ihr).1 v hv
+      | str k => simp only [str, Value.render, Value.toString]; exact (step_cont rest (access_str ref ns k _) n1 ihr).1 v hv
+      | undefined => simp [absV, Spec.Eval.access] at hv
+      | list _ _ => simp [absV, Spec.Eval.access] at hv
+      | map _ _ => simp [absV, Spec.Eval.access] at hv
+      | null => simp only [str, Value.render, Value.toString]; exact (step_cont rest (access_other ref ns _ _) n1 ihr).1 v hv
+      | bool b => simp only [str, Value.render, Value.toString]; exact (step_cont rest (access_other ref ns _ _) n1 ihr).1 v hv
+      | float f => simp only [str, Value.render, Value.toString]; exact (step_cont rest (access_other ref ns _ _) n1 ihr).1 v hv
+    · rcases bind_err herr with h | ⟨kv, hkv, herr⟩
+      · rw [ihe.2 h]
+      · obtain ⟨mk, n1, hmk, habs⟩ := ihe.1 kv hkv
+        rw [hmk]
+        subst habs
+        cases mk with
+        | int i => exact (step_cont rest (access_int ref ns i.toInt _) n1 ihr).2 herr
+        | str k => simp only [str, Value.render, Value.toString]; exact (step_cont rest (access_str ref ns k _) n1 ihr).2 herr
+        | undefined => simp [absV, Spec.Eval.access] at herr
+        | list _ _ => simp [absV, Spec.Eval.access] at herr
+        | map _ _ => simp [absV, Spec.Eval.access] at herr
+        | null => simp only [str, Value.render, Value.toString]; exact (step_cont rest (access_other ref ns _ _) n1 ihr).2 herr
+        | bool b => simp only [str, Value.render, Value.toString]; exact (step_cont rest (access_other ref ns _ _) n1 ihr).2 herr
+        | float f => simp only [str, Value.render, Value.toString]; exact (step_cont rest (access_other ref ns _ _) n1 ihr).2 herr
+/-- the items of a list literal / the arguments of a function, left to right -/
+theorem args_sim (ord : Bool) (hord : ord = true → OrdExact) : (items : ExprList) → listFragO ord items = true → ∀ (n : Nat),
+    (∀ vs, Spec.Eval.evalList s items = .val vs → ∃ mvs n', evalArgs m items n = some (mvs, n') ∧ absL mvs = vs) ∧
+    (Spec.Eval.evalList s items = .error → evalArgs m items n = none)
+  | .nil, _, n => by
+    rw [Spec.Eval.evalList, evalArgs]
+    exact ⟨fun vs h => by simp only [Out.val.injEq] at h; exact ⟨[], n, rfl, by rw [← h]; rfl⟩, fun h => by simp at h⟩
+  | .cons e r, hf, n => by
+    simp only [listFragO, Bool.and_eq_true] at hf
+    have he := eval_refines_spec_ord ord hord e hf.1 n
+    rw [Spec.Eval.evalList, evalArgs]
+    refine ⟨fun vs hv => ?_, fun herr => ?_⟩
+    · obtain ⟨v, hv1, hv⟩ := bind_val hv
+      obtain ⟨vr, hv2, hv⟩ := bind_val hv
+      obtain ⟨mv, n1, h1, h2⟩ := he.1 v hv1
+      obtain ⟨mvs, n2, h4, h5⟩ := (args_sim ord hord r hf.2 n1).1 vr hv2
+      simp only [Out.val.injEq] at hv
+      rw [h1]; simp only [h4]
+      exact ⟨mv :: mvs, n2, rfl, by rw [← hv, absL, h2, h5]⟩
+    · rcases bind_err herr with h | ⟨v, hv1, herr⟩
+      · rw [he.2 h]
+      · obtain ⟨mv, n1, h1, _⟩ := he.1 v hv1
+        rw [h1]
+        rcases bind_err herr with h | ⟨vr, _, h⟩
+        · simp only [(args_sim ord hord r hf.2 n1).2 h]
+        · simp at h
+/-- the items of a map literal (pairwise different keys) -/
+theorem map_sim (ord : Bool) (hord : ord = true → OrdExact) : (items : MapItems) → mapFragO ord items = true → ∀ (n : Nat),
+    (∀ B, Spec.Eval.evalMap s items = .val B → ∃ kvs n', evalMapItems m items n = some (kvs, n') ∧ absK kvs = B) ∧
+    (Spec.Eval.evalMap s items = .error → evalMapItems m items n = none)
+  | .nil, _, n => by
+    rw [Spec.Eval.evalMap, evalMapItems]
+    exact ⟨fun B h => by simp only [Out.val.injEq] at h; exact ⟨[], n, rfl, by rw [← h]; rfl⟩, fun h => by simp at h⟩
+  | .cons k e r, hf, n => by
+    simp only [mapFragO, Bool.and_eq_true, Bool.not_eq_true', List.contains_eq_mem, decide_eq_false_iff_not] at hf
+    obtain ⟨⟨hfe, hk⟩, hfr⟩ := hf
+    have he := eval_refines_spec_ord ord hord e hfe n
+    rw [Spec.Eval.evalMap, evalMapItems]
+    refine ⟨fun B hv => ?_, fun herr => ?_⟩
+    · obtain ⟨v, hv1, hv⟩ := bind_val hv
+      obtain ⟨Br, hv2, hv⟩ := bind_val hv
+      obtain ⟨mv, n1, h1, h2⟩ := he.1 v hv1
+      obtain ⟨kvs, n2, h4, h5⟩ := (map_sim ord hord r hfr n1).1 Br hv2
+      simp only [Out.val.injEq] at hv
+      rw [h1]; simp only [h4]
+      refine ⟨(k, mv) :: kvs, n2, rfl, ?_⟩
+      rw [← hv, filter_ne_self Br k (fun kv hkv e => hk (e ▸ evalMap_keys s r Br hv2 kv hkv)), absK, h2, h5]
+    · rcases bind_err herr with h | ⟨v, hv1, herr⟩
+      · rw [he.2 h]
+      · obtain ⟨mv, n1, h1, _⟩ := he.1 v hv1
+        rw [h1]
+        rcases bind_err herr with h | ⟨Br, _, h⟩
+        · simp only [(map_sim ord hord r hfr n1).2 h]
+        · simp at h
+end
 
 /-- the model refines the specification on the scalar operator fragment (no ordering comparisons, no
     hypothesis) -/
-theorem eval_refines_spec_partial (e : Expr) (hf : frag coll e = true) : Sim m s e :=
+theorem eval_refines_spec_partial (e : Expr) (hf : frag e = true) : Sim m s e :=
   eval_refines_spec_ord hr false (fun h => by cases h) e hf
 
 /-- … and with `< > <= >=` on int/int, int/float and float/float operands, given that int → float
     conversion is order-exact below 2^53 (`OrdExact`: a statement about the soft-float Base/F64 that is
     validated bit for bit by the C20 correspondence but not proved) -/
-theorem eval_refines_spec_with_ordering (hx : OrdExact) (e : Expr) (hf : fragO coll true e = true) : Sim m s e :=
+theorem eval_refines_spec_with_ordering (hx : OrdExact) (e : Expr) (hf : fragO true e = true) : Sim m s e :=
   eval_refines_spec_ord hr true (fun _ => hx) e hf
 end
 
@@ -444,13 +691,13 @@ theorem ordExact : OrdExact := by
   exact F64.ofInt_order x y (by simp only [F64.two53]; omega) (by simp only [F64.two53]; omega)
 
 section
-variable {coll : Bytes → Bool} {m : EEnv} {s : Spec.Eval.Env} (hr : EnvRel coll m s)
+variable {m : EEnv} {s : Spec.Eval.Env} (hr : EnvRel m s)
 include hr
 
 /-- the refinement with `< > <= >=`, WITHOUT hypothesis: on the fragment `fragO true` (scalar operators and
     the ordering comparisons on int/int, int/float, float/float operands, ints within ±2^53 as the
     specification demands) the model evaluates to what the specification says, and errs where it errs -/
-theorem eval_refines_spec_ordering (e : Expr) (hf : fragO coll true e = true) : Sim m s e :=
+theorem eval_refines_spec_ordering (e : Expr) (hf : fragO true e = true) : Sim m s e :=
   eval_refines_spec_with_ordering hr ordExact e hf
 end
 
@@ -551,17 +798,13 @@ theorem print_error_writes_nothing (g : GEnv) (esc : Bool) (pos : Nat) (arg : Ex
 def m0 : EEnv := { lookup := fun k => if k == [120] then .int 3 else .undefined, ij := none, globals := [] }
 def s0 : Spec.Eval.Env := { vars := [([120], .int 3)], loops := [], ij := none, globals := [] }
 
-theorem rel0 : EnvRel (fun _ => false) m0 s0 := by
-  refine ⟨fun k _ => ?_, fun k _ => ?_, fun k => ?_⟩
+theorem rel0 : EnvRel m0 s0 := by
+  refine ⟨fun k _ => ?_, fun k => ?_⟩
   · by_cases h : k = [120]
     · subst h; rfl
     · have h' : ([120] == k) = false := by simpa using fun e => h e.symm
       have h'' : (k == [120]) = false := by simpa using h
       simp [m0, s0, Spec.Eval.Env.lookup, Spec.Eval.find, h', h, absV]
-  · by_cases h : k = [120]
-    · subst h; rfl
-    · have h'' : (k == [120]) = false := by simpa using h
-      simp [m0, h, Scalar]
   · simp [m0, s0, Frame.find, Spec.Eval.find]
 
 def x0 : Expr := .dataRef 0 [120] .nil
@@ -570,22 +813,106 @@ def e0 : Expr :=
 
 /-- the specification says `a3`; by the theorem the model says `a3` too -/
 example : ∃ mv n', evalE m0 e0 7 = .ok mv n' ∧ absV mv = .str [97, 51] := by
-  obtain ⟨mv, n', h1, h2, _⟩ := (eval_refines_spec_partial rel0 e0 (by decide) 7).1 (.str [97, 51]) (by rfl)
+  obtain ⟨mv, n', h1, h2⟩ := (eval_refines_spec_partial rel0 e0 (by decide) 7).1 (.str [97, 51]) (by rfl)
   exact ⟨mv, n', h1, h2⟩
 
 /-- with the ordering comparisons: `$x < 4 ? 'lt' : 'ge'` -/
 def e1 : Expr := .tern 0 (.bin .lt 0 x0 (.int 0 4)) (.str 0 [] [108, 116]) (.str 0 [] [103, 101])
 
 example (hx : OrdExact) : ∃ mv n', evalE m0 e1 7 = .ok mv n' ∧ absV mv = .str [108, 116] := by
-  obtain ⟨mv, n', h1, h2, _⟩ := (eval_refines_spec_with_ordering rel0 hx e1 (by decide) 7).1 (.str [108, 116]) (by rfl)
+  obtain ⟨mv, n', h1, h2⟩ := (eval_refines_spec_with_ordering rel0 hx e1 (by decide) 7).1 (.str [108, 116]) (by rfl)
   exact ⟨mv, n', h1, h2⟩
 /-- … and without the hypothesis -/
 example : ∃ mv n', evalE m0 e1 7 = .ok mv n' ∧ absV mv = .str [108, 116] := by
-  obtain ⟨mv, n', h1, h2, _⟩ := (eval_refines_spec_ordering rel0 e1 (by decide) 7).1 (.str [108, 116]) (by rfl)
+  obtain ⟨mv, n', h1, h2⟩ := (eval_refines_spec_ordering rel0 e1 (by decide) 7).1 (.str [108, 116]) (by rfl)
   exact ⟨mv, n', h1, h2⟩
 
 /-- ordering non-numbers is an error on both sides; `'a' - 1` is inside and is an error on both sides -/
 example : evalE m0 (.bin .sub 0 (.str 0 [] [97]) (.int 0 1)) 7 = .err :=
   (eval_refines_spec_partial rel0 _ (by decide) 7).2 (by rfl)
+
+/-! ### accesses: x = {a: [10, {b: 'B'}], n: null}
+
+    `$x.a[1].b` = 'B' (an access chain through a map, a list and a map); `$x.n?.q.r` … a null-safe hop on null
+    as the LAST access: `$x.n?.q` = null; `$x.a[0 + 1]?.b` with a computed index; `$x.zz.y` (an access on
+    undefined) and `$x.a.k` (a key on a list) are errors on both sides -/
+
+def vx : Value := .map 5 [([97], .list 6 [.int 10, .map 7 [([98], .str [66])]]), ([110], .null)]
+def m1 : EEnv := { lookup := fun k => if k == [120] then vx else .undefined, ij := none, globals := [] }
+def s1 : Spec.Eval.Env := { vars := [([120], absV vx)], loops := [], ij := none, globals := [] }
+
+theorem rel1 : EnvRel m1 s1 := by
+  refine ⟨fun k _ => ?_, fun k => ?_⟩
+  · by_cases h : k = [120]
+    · subst h; rfl
+    · have h' : ([120] == k) = false := by simpa using fun e => h e.symm
+      have h'' : (k == [120]) = false := by simpa using h
+      simp [m1, s1, Spec.Eval.Env.lookup, Spec.Eval.find, h', h, absV]
+  · simp [m1, s1, Frame.find, Spec.Eval.find]
+
+def xa1b : Expr := .dataRef 0 [120] (.cons (.key 0 false [97]) (.cons (.index 0 false 1) (.cons (.key 0 false [98]) .nil)))
+def xnq : Expr := .dataRef 0 [120] (.cons (.key 0 false [110]) (.cons (.key 0 true [113]) .nil))
+def xaeb : Expr := .dataRef 0 [120] (.cons (.key 0 false [97])
+  (.cons (.expr 0 false (.bin .add 0 (.int 0 0) (.int 0 1))) (.cons (.key 0 true [98]) .nil)))
+
+example : ∃ mv n', evalE m1 xa1b 7 = .ok mv n' ∧ absV mv = .str [66] :=
+  (eval_refines_spec_partial rel1 xa1b (by decide) 7).1 (.str [66]) (by rfl)
+example : ∃ mv n', evalE m1 xnq 7 = .ok mv n' ∧ absV mv = .null :=
+  (eval_refines_spec_partial rel1 xnq (by decide) 7).1 .null (by rfl)
+example : ∃ mv n', evalE m1 xaeb 7 = .ok mv n' ∧ absV mv = .str [66] :=
+  (eval_refines_spec_partial rel1 xaeb (by decide) 7).1 (.str [66]) (by rfl)
+example : evalE m1 (.dataRef 0 [120] (.cons (.key 0 false [122, 122]) (.cons (.key 0 false [121]) .nil))) 7 = .err :=
+  (eval_refines_spec_partial rel1 _ (by decide) 7).2 (by rfl)
+example : evalE m1 (.dataRef 0 [120] (.cons (.key 0 false [97]) (.cons (.key 0 false [107]) .nil))) 7 = .err :=
+  (eval_refines_spec_partial rel1 _ (by decide) 7).2 (by rfl)
+
+/-! ### collection literals as values: `[1, ['q': $x.a[0]], []]` and `['k': [1, 2], 'j': $x.n]` -/
+
+def lit1 : Expr := .list 0 (.cons (.int 0 1) (.cons (.map 0 (.cons [113]
+  (.dataRef 0 [120] (.cons (.key 0 false [97]) (.cons (.index 0 false 0) .nil))) .nil)) (.cons (.list 0 .nil) .nil)))
+def lit2 : Expr := .map 0 (.cons [107] (.list 0 (.cons (.int 0 1) (.cons (.int 0 2) .nil)))
+  (.cons [106] (.dataRef 0 [120] (.cons (.key 0 false [110]) .nil)) .nil))
+
+example : ∃ mv n', evalE m1 lit1 7 = .ok mv n' ∧ absV mv = .list [.int 1, .map [([113], .int 10)], .list []] :=
+  (eval_refines_spec_partial rel1 lit1 (by decide) 7).1 _ (by rfl)
+example : ∃ mv n', evalE m1 lit2 7 = .ok mv n' ∧ absV mv = .map [([107], .list [.int 1, .int 2]), ([106], .null)] :=
+  (eval_refines_spec_partial rel1 lit2 (by decide) 7).1 _ (by rfl)
+
+/-! ### builtins: `length($x.a) + (strContains('abc', 'bc') ? 10 : 0) + (isNonnull($x.n) ? 100 : 0)` = 12, and
+    `range(length($x.a))` = [0, 1] -/
+
+def fn1 : Expr :=
+  .bin .add 0 (.bin .add 0
+    (.func 0 fLength (.cons (.dataRef 0 [120] (.cons (.key 0 false [97]) .nil)) .nil))
+    (.tern 0 (.func 0 fStrContains (.cons (.str 0 [] [97, 98, 99]) (.cons (.str 0 [] [98, 99]) .nil))) (.int 0 10) (.int 0 0)))
+    (.tern 0 (.func 0 fIsNonnull (.cons (.dataRef 0 [120] (.cons (.key 0 false [110]) .nil)) .nil)) (.int 0 100) (.int 0 0))
+def fn2 : Expr := .func 0 fRange (.cons (.func 0 fLength (.cons (.dataRef 0 [120] (.cons (.key 0 false [97]) .nil)) .nil)) .nil)
+
+example : ∃ mv n', evalE m1 fn1 7 = .ok mv n' ∧ absV mv = .int 12 :=
+  (eval_refines_spec_partial rel1 fn1 (by decide) 7).1 _ (by rfl)
+example : ∃ mv n', evalE m1 fn2 7 = .ok mv n' ∧ absV mv = .list [.int 0, .int 1] :=
+  (eval_refines_spec_partial rel1 fn2 (by decide) 7).1 _ (by rfl)
+
+/-! `min(length($x.a), 7) + max(1.5, 2)` = 2 + 2.0 -/
+def fn3 : Expr := .func 0 fMin (.cons (.func 0 fLength (.cons (.dataRef 0 [120] (.cons (.key 0 false [97]) .nil)) .nil)) (.cons (.int 0 7) .nil))
+example : ∃ mv n', evalE m1 fn3 7 = .ok mv n' ∧ absV mv = .int 2 :=
+  (eval_refines_spec_partial rel1 fn3 (by decide) 7).1 _ (by rfl)
+
+/-! `keys(augmentMap(['b': 1, 'a': 2], ['c': 3, 'a': 4]))` = ['a', 'b', 'c'], `augmentMap(…).a` … right wins -/
+def mapBA : Expr := .map 0 (.cons [97] (.int 0 2) (.cons [98] (.int 0 1) .nil))
+def mapCA : Expr := .map 0 (.cons [97] (.int 0 4) (.cons [99] (.int 0 3) .nil))
+def fn4 : Expr := .func 0 fKeys (.cons (.func 0 fAugmentMap (.cons mapBA (.cons mapCA .nil))) .nil)
+example : ∃ mv n', evalE m1 fn4 7 = .ok mv n' ∧ absV mv = .list [.str [97], .str [98], .str [99]] :=
+  (eval_refines_spec_partial rel1 fn4 (by decide) 7).1 _ (by rfl)
+example : ∃ mv n', evalE m1 (.func 0 fAugmentMap (.cons mapBA (.cons mapCA .nil))) 7 = .ok mv n' ∧
+    absV mv = .map [([97], .int 4), ([98], .int 1), ([99], .int 3)] :=
+  (eval_refines_spec_partial rel1 _ (by decide) 7).1 _ (by rfl)
+
+/-! `$x['']` looks the key "" up (undefined here); `$x.a[-1]` is an index outside the list: undefined -/
+example : ∃ mv n', evalE m1 (.dataRef 0 [120] (.cons (.expr 0 false (.str 0 [] [])) .nil)) 7 = .ok mv n' ∧ absV mv = .undefined :=
+  (eval_refines_spec_partial rel1 _ (by decide) 7).1 _ (by rfl)
+example : ∃ mv n', evalE m1 (.dataRef 0 [120] (.cons (.key 0 false [97]) (.cons (.index 0 false (-1)) .nil))) 7 = .ok mv n' ∧
+    absV mv = .undefined :=
+  (eval_refines_spec_partial rel1 _ (by decide) 7).1 _ (by rfl)
 
 end SoyVerif.Props.C01
